@@ -39,7 +39,8 @@ from harness import semrun
 from harness import tlc
 
 PROP = 'C17'
-FAMILIES = [1, 2, 3, 4, 5, 6, 7]
+FAMILIES = [1, 2, 3, 4, 5, 6, 7, 8, 9]
+TLC_JUDGED_FAMILIES = ('with_chain', 'flags')   # replayed AND trace-validated
 MAX_ROWS = 40      # traces with larger tables are not sent to TLC (cost)
 KINDS = ['RunDependant', 'RunAgain', 'RunGrounded', 'PrePopulate',
          'SwitchVersion']
@@ -629,6 +630,8 @@ def Run(tier):
         hs = rng.sample(hs, n_hist // len(FAMILIES))
       # a part of the histories also goes through the subprocess entry point
       every = 4 if quick else 24
+      if m['family']['name'] == 'flags':
+        every = 1      # flags are about the command line: always the CLI too
       items += [{'ix': m['ix'], 'family': m['family'], 'hist': h,
                  'main': k % every == 0} for k, h in enumerate(hs)]
     replayed = pool.map(ReplayHistory, items, chunksize=4) if items else []
@@ -654,6 +657,17 @@ def Run(tier):
     for mode in res['modes']:
       run_modes['history:' + mode] += 1
     family_shapes[item['family']['name']] += 1
+    if item['family']['name'] == 'with_chain':
+      for h in item['hist']:
+        if h['a'] == 'Run':
+          family_shapes['with_chain:' + (
+              'rerun' if h['kind'] == 'RunAgain' else h['p'])] += 1
+    if item['family']['name'] == 'flags':
+      for h, mode in zip([h for h in item['hist'] if h['a'] == 'Run'],
+                         res['modes']):
+        family_shapes['flags:%s:%s' % (
+            'default' if h['ver'] == 1 else 'given_on_command_line',
+            mode)] += 1
     drift += res['drift']
     steps_compared += len(item['hist'])
     for h in item['hist']:
@@ -672,6 +686,12 @@ def Run(tier):
   # difference from the model state that the specification does not reject
   # (a faithful extra table, see GroundSem!Informational) is MODEL-DRIFT.
   history_drift = 0
+  # the replayed histories of some families are ALSO judged as recorded
+  # traces (code -> spec)
+  judged = [(item, res) for item, res in zip(items, replayed)
+            if item['family']['name'] in TLC_JUDGED_FAMILIES and not res['bad']]
+  n_bad = len(bad_items)
+  bad_items = bad_items + judged
   if bad_items:
     lines = [{'tid': 'h%d' % k, 'dev': [], 'versions': item['family']['versions'],
               'steps': res['events']}
@@ -683,8 +703,13 @@ def Run(tier):
       tlc_says = [v for (tid, _), v in sorted(hv.items())
                   if tid == 'h%d' % k and not v['ok']]
       if not tlc_says and not herr:
-        history_drift += 1
+        if k < n_bad:
+          history_drift += 1
         continue
+      if k >= n_bad:
+        first = min(tlc_says, key=lambda v: v['step'])
+        res = dict(res, bad={'step': first['step'],
+                             'clause': 'GroundTrace:' + first['clause']})
       path = common.WriteReplay(PROP, 'hist_f%d_%s' % (
           item['ix'], common.Sha(item['hist'])), {
               'mode': 'history', 'family': item['family'], 'ix': item['ix'],
@@ -802,6 +827,13 @@ def Run(tier):
              'order_limit_multi_rule', 'order_limit_single_rule'):
     if not trace_shapes.get(sh):
       machinery.append('shape %s never occurred in a recorded trace' % sh)
+  for key in ('with_chain', 'with_chain:MainFirstG', 'with_chain:MainFirstW',
+              'with_chain:Two', 'with_chain:TwoRev', 'with_chain:rerun',
+              'flags', 'flags:default:script', 'flags:default:main',
+              'flags:given_on_command_line:script',
+              'flags:given_on_command_line:main'):
+    if not family_shapes.get(key):
+      machinery.append('required shape %s was not replayed' % key)
   for mode in ('history:script', 'history:main', 'trace:script', 'trace:main'):
     if not run_modes.get(mode):
       machinery.append('no run through the real runner in mode %s' % mode)
@@ -891,7 +923,8 @@ def Run(tier):
       'histories_enumerated_by_tlc': total_hist,
       'histories_replayed': len(replayed),
       'history_steps_compared': steps_compared,
-      'history_mismatches': len(bad_items),
+      'history_mismatches': n_bad,
+      'histories_also_judged_by_groundtrace': len(judged),
       'replayed_steps_by_action': dict(step_kinds),
       'fresh_compilations': sum(a for a, _ in compiled.values()),
       'cached_compilations': sum(b for _, b in compiled.values()),
@@ -934,7 +967,7 @@ def Run(tier):
         '%d histories replayed (%d steps compared, %d mismatches); %d traces '
         '/ %d steps judged by GroundTrace (%s); %d violations; %.0fs' % (
             PROP, tier, total_hist, [m['distinct'] for m in full],
-            len(replayed), steps_compared, len(bad_items), len(kept),
+            len(replayed), steps_compared, n_bad, len(kept),
             len(verdicts), dict(clauses), len(violations), clock()))
   if machinery:
     for m in machinery[:12]:
